@@ -174,6 +174,72 @@ Proof.
   intros H. pose proof (nonempty_leaves t H) as Hl. rewrite (superposition t H).
   destruct (leaves t) as [|s0 rest]; [congruence|]. exists s0, rest. split; reflexivity.
 Qed.
+(** ** every tree, no side condition *)
+(** the sum over the primitives, or the IndexError of an empty collection met on the way *)
+Definition SumOrEmpty (r : res F) (L : list F) : Prop := r = sum_ne fadd L \/ r = Err EIndexError.
+Inductive Covers : list (res F) -> list F -> Prop :=
+| Cv_nil : Covers [] []
+| Cv_cons : forall r Lj rs L, SumOrEmpty r Lj -> Covers rs L -> Covers (r :: rs) (Lj ++ L).
+
+Lemma Covers_app a La b Lb : Covers a La -> Covers b Lb -> Covers (a ++ b) (La ++ Lb).
+Proof.
+  induction 1 as [|r Lj rs L Hr H IH]; intros Hb; [exact Hb|].
+  cbn [app]. rewrite <- app_assoc. constructor; [exact Hr|apply IH, Hb].
+Qed.
+
+Let step := (fun (ac : res F) (r : res F) => bind ac (fun x => bind r (fun f => Ok (fadd x f)))).
+Lemma fold_err rs e : fold_left step rs (Err e) = Err e.
+Proof. induction rs as [|r t IH]; [reflexivity|]. cbn. exact IH. Qed.
+
+Lemma Covers_fold rs L : Covers rs L -> forall a,
+  fold_left step rs (Ok a) = Ok (fold_left fadd L a) \/ fold_left step rs (Ok a) = Err EIndexError.
+Proof.
+  induction 1 as [|r Lj rs L Hr H IH]; intros a; [left; reflexivity|].
+  cbn [fold_left]. destruct Hr as [Hr|Hr]; subst r.
+  - destruct Lj as [|g0 grest].
+    + cbn. right. apply fold_err.
+    + unfold step at 2. cbn [sum_ne bind]. destruct (IH (fadd a (fold_left fadd grest g0))) as [E|E]; [left|right; exact E].
+      rewrite E. f_equal. rewrite fold_left_app. cbn [app fold_left]. rewrite fold_left_assoc. reflexivity.
+  - cbn. right. apply fold_err.
+Qed.
+
+Lemma Covers_acc rs L : Covers rs L -> SumOrEmpty (acc rs) L.
+Proof.
+  destruct 1 as [|r Lj rs L Hr H]; [left; reflexivity|].
+  cbn [accumulate]. destruct Hr as [Hr|Hr]; subst r.
+  - destruct Lj as [|g0 grest].
+    + right. cbn. apply fold_err.
+    + unfold SumOrEmpty. cbn [sum_ne app]. fold step.
+      destruct (Covers_fold _ _ H (fold_left fadd grest g0)) as [E|E]; [left|right; exact E].
+      rewrite E. rewrite fold_left_app. reflexivity.
+  - right. apply fold_err.
+Qed.
+
+Lemma Covers_one r (L : list F) : SumOrEmpty r L -> Covers [r] L.
+Proof. intros H. rewrite <- (app_nil_r L). constructor; [exact H|constructor]. Qed.
+
+Lemma superposition_general_inv (t : tree S) :
+  SumOrEmpty (fst (sc2' t)) (map d (leaves t)) /\
+  match t with Leaf _ => True | Node _ _ => Covers (snd (sc2' t)) (map d (leaves t)) end.
+Proof.
+  induction t as [s|cls l IH] using tree_ind'.
+  - split; [|exact I]. left. cbn [sc2 fst leaves map sum_ne fold_left]. rewrite can_leaf. reflexivity.
+  - assert (Hs : Covers (snd (sc2' (Node cls l))) (map d (leaves (Node cls l)))).
+    { cbn [sc2 snd leaves]. clear -IH.
+      induction l as [|c r IHr]; [constructor|].
+      inversion IH as [|? ? Hc Hr]; subst. cbn [flat_map]. rewrite map_app. apply Covers_app; [|apply IHr; assumption].
+      destruct Hc as [Hf Hsnd]. pose proof (Covers_one _ _ Hf) as Hone.
+      destruct c as [s|c' l']; [exact Hone|]. destruct (isinst c' cls); [exact Hsnd|exact Hone]. }
+    split; [|exact Hs]. cbn [sc2 fst]. rewrite can_node. apply Covers_acc. exact Hs.
+Qed.
+
+(** for EVERY tree: the result is the sum over the primitives, or IndexError (an empty collection) - never anything else *)
+Lemma superposition_general (t : tree S) :
+  sc t = sum_ne fadd (map d (leaves t)) \/ sc t = Err EIndexError.
+Proof. exact (proj1 (superposition_general_inv t)). Qed.
+
+Lemma superposition_partial (t : tree S) f : sc t = Ok f -> sum_ne fadd (map d (leaves t)) = Ok f.
+Proof. intros H. destruct (superposition_general t) as [E|E]; rewrite H in E; [symmetry; exact E|discriminate]. Qed.
 End DispatchLemmas.
 
 (** complex 3-vectors over R under cv_add *)
